@@ -2,7 +2,7 @@
 From Coq Require Import List NArith ZArith Bool Lia ZifyBool ZifyNat ZifyN Arith.
 From Mila Require Import Lib.Bytes Lib.Machine Model.BinArchive Model.BinStreams Model.BinFormat Model.AssetBin
   Proofs.AMapLemmas Proofs.BinAccess Proofs.BinAccess2 Proofs.RecsCells Proofs.RecsBytes Proofs.AssetBinSchema
-  Proofs.AssetBinFlags Proofs.AssetBinWrite Proofs.AssetBinRead Proofs.AssetBinRoundTrip Proofs.RecsBinBridge.
+  Proofs.AssetBinFlags Proofs.AssetBinWrite Proofs.AssetBinRead Proofs.AssetBinRoundTrip Proofs.RecsBinBridge Proofs.RecsDataSize.
 Import ListNotations.
 Local Open Scope N_scope.
 Ltac Zify.zify_post_hook ::= Z.div_mod_to_equations.
@@ -99,6 +99,28 @@ Theorem round_trip_bytes_final m b :
   wf_bin_bytes b ->
   exists f, serialize m b = Ok f /\ parse f = Ok b /\ (forall b', parse f = Ok b' -> serialize m b' = Ok f).
 Proof. apply round_trip_bytes. intros a W B. apply recs_bin_round_trip; assumption. Qed.
+
+(* ================================================================== the data region: header word + announced record sizes + trailing word *)
+Fixpoint announced_total (specs : list spec) : N :=
+  match specs with [] => 0 | sp :: r => snd (compute_flags sp) + announced_total r end.
+Lemma records_size specs : cells_size (records c_base c_ext specs) = announced_total specs.
+Proof.
+  induction specs as [|sp r IH]; cbn [records announced_total cells_size]; [reflexivity|].
+  rewrite cells_size_app, IH, (record_cells_size c_base c_ext src_wf sp), compute_flags_eq. reflexivity.
+Qed.
+Lemma file_cells_size b : cells_size (src_file_cells b) = 4 + announced_total (ab_specs b) + 4.
+Proof.
+  unfold src_file_cells, file_cells. cbn [cells_size cell_size]. rewrite cells_size_app, records_size.
+  cbn [cells_size cell_size]. rewrite lenN_zeros. change (lenN (enc LE 4 (ab_flags b))) with 4. lia.
+Qed.
+(* ... and this is the data-size field (offset 4) of the file image: every record occupies exactly the bytes its flags announce *)
+Theorem data_size_field m b f : 4 + announced_total (ab_specs b) + 4 < 2 ^ 32 -> serialize m b = Ok f ->
+  u32_at LE f 4 = Some (4 + announced_total (ab_specs b) + 4).
+Proof.
+  intros Hs S. unfold serialize in S. rewrite build_is_cells in S. cbn [bind] in S. rewrite <- file_cells_size in *.
+  pose proof (serialize_data_size m (append_cells (ba_new LE) (src_file_cells b)) f eq_refl) as D.
+  rewrite size_append_cells in D. change (size (ba_new LE)) with 0 in D. rewrite N.add_0_l in D. exact (D Hs S).
+Qed.
 
 (* ================================================================== short form, record size, trailing word *)
 Definition is_some {A} (o : option A) : bool := match o with Some _ => true | None => false end.
